@@ -31,6 +31,7 @@
 //!   F1-attr-value-gt-text-mode, F2-self-closing-foreign-root, F11-foreign-root-inside-foreign,
 //!   F12-integration-point-named-end-tag            — known shapes (see docs/pkg-ref.md)
 //!   token-stream-differs                            — any other difference of the main comparison
+//!   strict-fails-on-unfinished-tag                 — finding R1 (tag-scanner mode only, see docs/pkg-ref.md)
 //!   end-tags-not-subsequence, strict-failed-unexpectedly, strict-not-failed, ambiguity-at-wrong-place,
 //!   strict-differs-from-nonstrict, chunking-changes-tokens, unexpected-error
 use crate::util::*;
@@ -76,6 +77,7 @@ impl Tok {
 }
 
 /// one html5ever token with the tree builder's state around it
+#[allow(dead_code)]
 struct HTok {
     tok: Tok,
     /// adjusted current node present and not in the HTML namespace, before / after the token
@@ -181,6 +183,8 @@ fn run_lol(input: &[u8], cuts: &[usize], strict: bool, mode: Mode) -> (Vec<Tok>,
     enum Ev {
         T(Tok),
         Chunk(String, bool),
+        /// end tag at source offset (one end tag may run the handlers of several elements)
+        EndAt(usize, String),
     }
     let log: Rc<RefCell<Vec<Ev>>> = Rc::new(RefCell::new(vec![]));
     let mut settings = Settings::new().with_strict(strict);
@@ -197,7 +201,7 @@ fn run_lol(input: &[u8], cuts: &[usize], strict: bool, mode: Mode) -> (Vec<Tok>,
             let l2 = l.clone();
             // fails on elements that cannot have content (void / self-closing foreign): no end tag expected
             let _ = el.on_end_tag(Box::new(move |end: &mut lol_html::html_content::EndTag<'_>| {
-                l2.borrow_mut().push(Ev::T(Tok::End { name: end.name() }));
+                l2.borrow_mut().push(Ev::EndAt(end.source_location().bytes().start, end.name()));
                 Ok(())
             }));
             Ok(())
@@ -251,6 +255,7 @@ fn run_lol(input: &[u8], cuts: &[usize], strict: bool, mode: Mode) -> (Vec<Tok>,
     // merge text chunks of one run, normalise
     let mut out: Vec<Tok> = vec![];
     let mut cur = String::new();
+    let mut last_end: Option<usize> = None;
     let flush = |cur: &mut String, out: &mut Vec<Tok>| {
         if !cur.is_empty() {
             out.push(Tok::Text(norm_newlines(cur)));
@@ -268,6 +273,14 @@ fn run_lol(input: &[u8], cuts: &[usize], strict: bool, mode: Mode) -> (Vec<Tok>,
             Ev::T(t) => {
                 flush(&mut cur, &mut out);
                 out.push(t);
+                last_end = None;
+            }
+            Ev::EndAt(off, name) => {
+                flush(&mut cur, &mut out);
+                if last_end != Some(off) {
+                    out.push(Tok::End { name });
+                }
+                last_end = Some(off);
             }
         }
     }
@@ -586,7 +599,17 @@ pub fn run(line: &str) -> String {
                 }
                 (LolEnd::Ambiguity(n), None) => {
                     if diff.is_none() || diff == Some(pl.len()) {
-                        oracle.push(format!("strict-failed-unexpectedly on <{n}>"));
+                        // Was it a start tag that never became a token (input ends inside the tag)? Complete
+                        // the tag and look again: the tag scanner asks the guard at the end of the tag *name*.
+                        let unfinished = [">", "\">", "'>"].iter().any(|sfx| {
+                            let h2 = run_html5ever(&format!("{html}{sfx}"));
+                            matches!(expected_ambiguity(&h2), Some((i, m)) if m == *n && i + 1 >= h.len())
+                        });
+                        if unfinished {
+                            oracle.push(format!("strict-fails-on-unfinished-tag <{n} … EOF"));
+                        } else {
+                            oracle.push(format!("strict-failed-unexpectedly on <{n}>"));
+                        }
                     }
                 }
                 (LolEnd::Ok, Some((i, m))) => {
@@ -603,12 +626,13 @@ pub fn run(line: &str) -> String {
                 // token difference
                 let prefix_only = matches!(lend, LolEnd::Ambiguity(_)) && d == pl.len() && expected.is_none();
                 if !prefix_only {
-                    let hidx = ph.get(d).map(|t| t.1).unwrap_or(hcut.len().saturating_sub(1));
-                    let tag = if mode == Mode::All || mode == Mode::El || mode == Mode::Text {
-                        classify(&h, hidx, &bytes)
+                    // in a single-kind mode the place of the divergence in the full stream is unknown
+                    let hidx = if mode == Mode::All {
+                        ph.get(d).map(|t| t.1).unwrap_or(hcut.len().saturating_sub(1))
                     } else {
-                        "token-stream-differs"
+                        h.len()
                     };
+                    let tag = classify(&h, hidx, &bytes);
                     oracle.push(format!(
                         "{tag} at {d}: lol={} h5={} (prev {})",
                         show_at(&pl, d),
@@ -617,7 +641,11 @@ pub fn run(line: &str) -> String {
                     ));
                 }
             } else if (mode == Mode::All || mode == Mode::El) && !is_subsequence(&end_tags(&l), &end_tags(hcut)) {
-                oracle.push(format!("end-tags-not-subsequence lol={:?} h5={:?}", end_tags(&l), end_tags(hcut)));
+                let tag = match classify(&h, h.len(), &bytes) {
+                    "token-stream-differs" => "end-tags-not-subsequence",
+                    known => known,
+                };
+                oracle.push(format!("{tag} (end tags) lol={:?} h5={:?}", end_tags(&l), end_tags(hcut)));
             }
             // strict success ⇒ identical to the non-strict run; chunking must not matter
             if matches!(lend, LolEnd::Ok) {
